@@ -545,7 +545,8 @@ def workload(tier, seed):
             masks = [m for m in masks if bin(m).count("1") <= 22]
             for ch in chunks(masks, 50):
                 yield "matching", {"cls": cls, "n": 7, "masks": ch, "as_nx": False}
-        for (m_, n_) in ((2, 257), (2, 1025), (3, 600), (2, 65539)) if quick else (
+        for (m_, n_) in ((2, 257), (2, 1025), (3, 600), (2, 65539), (1, 2 ** 20 - 3), (1, 2 ** 21 - 3)) if quick else (
+                (1, 2 ** 20 - 3), (1, 2 ** 21 - 3), (1, 2 ** 22 - 5), (2, 2 ** 19 + 3),
                 (2, 257), (2, 513), (2, 1025), (2, 2049), (3, 600), (3, 1030), (2, 4097), (2, 40000), (2, 65536), (2, 65537),
                 (2, 65539), (3, 70001), (2, 131073), (2, 262145)):
             yield "bphp_wide", {"cls": cls, "m": m_, "n": n_}
@@ -758,7 +759,7 @@ def case_history(ctx, cls, rseed):
 
 
 def case_bphp_wide(ctx, cls, m, n):
-    """BinaryPigeonholePrinciple with many holes (9-19 bits): pigeons sent to chosen holes against the principle."""
+    """BinaryPigeonholePrinciple with many holes (9-22 bits): pigeons sent to chosen holes against the principle."""
     K = S.formula_classes()[cls]
     g = gens()
     r = ctx.rng("c01bphpwide", cls, m, n)
